@@ -142,6 +142,28 @@ def corpus():
                                       + bytes([255]))
   frames["dhcp_raw_overload"] = dhcp_frame(bytes([53, 1, 2, 52, 1, 3, 255]), overload=True)
   frames["dhcp_raw_no_end"] = dhcp_frame(bytes([53, 1, 1, 0, 0]))
+  # frames for header shapes the builders above do not produce (added 2026-09-25 after a review of raising paths that the
+  # corpus could not reach: extension headers, EAP bodies, GRE routing entries, IGMPv3 sources)
+  mac = bytes.fromhex("0102030405060a0b0c0d0e0f")
+  v6 = lambda nh, plen: bytes.fromhex("60000000") + bytes([plen >> 8, plen & 255, nh, 64]) + bytes.fromhex(
+    "fe800000000000000000000000000001fe800000000000000000000000000002")
+  udp8 = bytes.fromhex("04d2162e0008") + bytes(2)
+  frames["ipv6_hop_by_hop_udp"] = mac + bytes.fromhex("86dd") + v6(0, 16) + bytes([17, 0, 1, 4, 0, 0, 0, 0]) + udp8
+  frames["ipv6_routing_udp"] = mac + bytes.fromhex("86dd") + v6(43, 16) + bytes([17, 0, 0, 0, 0, 0, 0, 0]) + udp8
+  frames["ipv6_dest_opts_frag_udp"] = mac + bytes.fromhex("86dd") + v6(60, 24) + bytes([44, 0, 1, 4, 0, 0, 0, 0]) \
+    + bytes([17, 0, 0, 0, 0, 0, 0, 1]) + udp8
+  frames["ipv6_ext_header_cut"] = mac + bytes.fromhex("86dd") + v6(0, 8)
+  frames["eap_request_identity"] = mac + bytes.fromhex("888e") + bytes([1, 0, 0, 9, 1, 1, 0, 9, 1]) + b"user"
+  frames["eap_request_md5"] = mac + bytes.fromhex("888e") + bytes([1, 0, 0, 6, 1, 2, 0, 6, 4, 0])
+  ip4 = lambda proto, body: bytes([0x45, 0]) + bytes([(20 + len(body)) >> 8, (20 + len(body)) & 255]) + bytes.fromhex(
+    "0001000040") + bytes([proto]) + bytes(2) + bytes.fromhex("0a0000010a000002") + body
+  frames["gre_routing"] = mac + bytes.fromhex("0800") + ip4(47, bytes.fromhex("400008000000000000000000") + bytes(4))
+  frames["gre_all_options"] = mac + bytes.fromhex("0800") + ip4(47, bytes.fromhex("b0000800") + bytes(4) + bytes.fromhex(
+    "0000002a00000007") + b"data")
+  frames["igmp_v3_report_sources"] = mac + bytes.fromhex("0800") + ip4(2, bytes.fromhex("2200000000000001") + bytes.fromhex(
+    "01000100e0000001") + bytes.fromhex("0a000005"))
+  frames["igmp_v3_report_cut_source"] = mac + bytes.fromhex("0800") + ip4(2, bytes.fromhex("2200000000000001") + bytes.fromhex(
+    "01000100e0000001") + bytes([255]))
   dns = bytes([0, 5, 1, 0, 0, 1, 0, 0, 0, 0, 0, 0]) + b"\x07example\x03com\x00" + bytes([0, 1, 0, 1])
   frames["dns_raw"] = B.eth(0x800, B.ip(17, B.udp(5555, 53, dns))).pack()
   return frames
